@@ -43,4 +43,6 @@ Definition run_generic (code : Z) (ws : list Z) : list Z :=
   else if code =? 7 then run_smh2 ws
   else if code =? 8 then run_dens ws
   else if code =? 9 then run_ord ws
+  else if code =? 10 then run_json_parse ws
+  else if code =? 11 then run_json_print ws
   else [-2].
